@@ -36,67 +36,7 @@ def run(repo: Repo, rep: Report, tier: str) -> None:
     fn = repo.func("transport", "AssociationSocket.recv")
     fq = "transport.AssociationSocket.recv"
     n_param = fn.args.args[1].arg
-    ws = [w for w in walk_no_nested(fn) if isinstance(w, ast.While)]
-    rep.need(len(ws) == 1, f"{fq}: loop not found")
-    w = ws[0]
-    t = w.test
-    ok = isinstance(t, ast.Compare) and len(t.ops) == 1 and isinstance(t.ops[0], ast.Lt) and isinstance(t.left, ast.Name) and norm(t.comparators[0]) == n_param
-    rep.check(ok, "recv-exact", fq, w, f"the read loop must continue exactly while fewer than {n_param} bytes were read", mod=tr)
-    cnt = t.left.id if ok else "nr_read"
-    remaining = {f"{n_param} - {cnt}"}
-    # the socket read and its size argument
-    reads = [c for c in ast.walk(w) if isinstance(c, ast.Call) and isinstance(c.func, ast.Attribute) and c.func.attr == "recv" and norm(c.func.value) in ("self.socket", "sock")]
-    rep.need(len(reads) == 1 and len(reads[0].args) == 1, f"{fq}: socket.recv call not found")
-    size = reads[0].args[0]
-    bounded = False
-    how = ""
-    if norm(size) in remaining:
-        bounded, how = True, "exact remaining count"
-    elif isinstance(size, ast.Call) and dotted(size.func) == "min" and any(norm(a) in remaining for a in size.args):
-        bounded, how = True, "min(.., remaining)"
-    elif isinstance(size, ast.Name):
-        # if-clamp: `size = K` ... `if (n - read) < size: size = n - read`  before the read on every path
-        var = size.id
-        cfg = CFG(fn, body=body_nodoc(fn), may_raise=lambda n: False)
-        rn = cfg.nodes_containing(reads[0])[0]
-
-        def transfer(n, st):
-            # st: 'unbounded' | 'bounded'
-            if n.kind == "stmt" and isinstance(n.ast, ast.Assign) and norm(n.ast.targets[0]) == var:
-                v = n.ast.value
-                if norm(v) in remaining or (isinstance(v, ast.Call) and dotted(v.func) == "min" and any(norm(a) in remaining for a in v.args)):
-                    return [("bounded", None)]
-                return [("unbounded", None)]
-            if n.kind == "test":
-                tt = n.ast.test
-                # `(n - read) < size`  false edge => size <= remaining ; `size > (n - read)` likewise
-                if isinstance(tt, ast.Compare) and len(tt.ops) == 1:
-                    l, r = norm(tt.left).strip("()"), norm(tt.comparators[0]).strip("()")
-                    if (l in remaining and r == var and isinstance(tt.ops[0], (ast.Lt, ast.LtE))) or (l == var and r in remaining and isinstance(tt.ops[0], (ast.Gt, ast.GtE))):
-                        return [(st, {"true"}), ("bounded", {"false"})]
-            return [(st, None)]
-
-        ins, pred = typestate(cfg, "unbounded", transfer)
-        states = ins.get(rn.id, set())
-        bounded = states == {"bounded"}
-        how = "if-clamp"
-        if not bounded:
-            rep.fail("recv-exact", fq, enclosing(reads[0], (ast.stmt,)), f"socket.recv may be asked for more than the {n_param} - {cnt} bytes still missing: bytes of the following PDU would be swallowed into this one", mod=tr, node=reads[0], path=witness(cfg, pred, rn, "unbounded"))
-    if bounded:
-        rep.ok("recv-exact", f"{fq} :: socket.recv size bounded by the remaining count", how)
-    elif not isinstance(size, ast.Name):
-        rep.fail("recv-exact", fq, enclosing(reads[0], (ast.stmt,)), f"socket.recv size {norm(size)} is not bounded by the remaining count", mod=tr, node=reads[0])
-    # append and count exactly what was read
-    rd_stmt = enclosing(reads[0], (ast.stmt,))
-    var = norm(rd_stmt.targets[0]) if isinstance(rd_stmt, ast.Assign) else None
-    body = [norm(s) for s in ast.walk(w) if isinstance(s, ast.stmt)]
-    ok = var is not None and f"bytestream.extend({var})" in body and f"{cnt} += len({var})" in body
-    rep.check(ok, "recv-exact", fq, f"extend({var}); {cnt} += len({var})", "exactly the bytes read must be appended and counted", mod=tr, node=w)
-    eof = [i for i in ast.walk(w) if isinstance(i, ast.If) and norm(i.test) == f"not {var}"]
-    ok = len(eof) == 1 and any(isinstance(s, ast.Return) and norm(s.value) == "bytestream" for s in eof[0].body)
-    rep.check(ok, "recv-exact", fq, eof[0] if eof else "empty read", "an empty read (peer closed) must end the loop and return what was read so far", mod=tr, node=w)
-    rets = [r for r in walk_no_nested(fn) if isinstance(r, ast.Return)]
-    rep.check(all(norm(r.value) == "bytestream" for r in rets) and not any(isinstance(b, ast.Break) for b in ast.walk(w)), "recv-exact", fq, "returns the accumulated bytes only", "the only exits are count reached and EOF", mod=tr, node=fn)
+    _check_recv(repo, rep, tr, fn, fq, n_param)
 
     # ---- header / body ---------------------------------------------------------
     dul = repo.mod("dul")
@@ -444,3 +384,99 @@ def _slice_base(e: ast.AST, want_hi: bool = False):
         if lo is None:
             lo = -1
     return (norm(e), lo, hi) if want_hi else (norm(e), lo)
+
+
+def _check_recv(repo, rep, tr, fn, fq, n_param):
+    """AssociationSocket.recv(n): (1) every socket read is bounded by what is still missing, (2) what is
+    returned is exactly what was received (recv_model: symbolic length bookkeeping, any loop shape),
+    (3) every read loop runs exactly while fewer than n bytes were read."""
+    from ..recv_model import RecvModel, Refused
+
+    ws = [w for w in walk_no_nested(fn) if isinstance(w, ast.While)]
+    rep.need(len(ws) >= 1, f"{fq}: read loop not found")
+    n_reads = 0
+    for w in ws:
+        t = w.test
+        ok = isinstance(t, ast.Compare) and len(t.ops) == 1 and isinstance(t.ops[0], ast.Lt) and isinstance(t.left, ast.Name) and norm(t.comparators[0]) == n_param
+        rep.check(ok, "recv-exact", fq, w, f"the read loop must continue exactly while fewer than {n_param} bytes were read", mod=tr)
+        cnt = t.left.id if ok else "nr_read"
+        remaining = {f"{n_param} - {cnt}"}
+        reads = [c for c in ast.walk(w) if isinstance(c, ast.Call) and isinstance(c.func, ast.Attribute) and c.func.attr in ("recv", "recv_into") and norm(c.func.value) in ("self.socket", "sock")]
+        rep.check(len(reads) == 1, "recv-exact", fq, f"{len(reads)} socket reads in the loop at line {w.lineno}", "one socket read per iteration (the count is re-tested before each)", mod=tr, node=w)
+        for rd in reads:
+            n_reads += 1
+            if rd.func.attr == "recv_into":
+                # filling a slice of a buffer pre-allocated with n bytes: the slice cannot reach past the buffer
+                tgt = strip_cast(rd.args[0]) if rd.args else None
+                base = tgt.value if isinstance(tgt, ast.Subscript) else tgt
+                bname = norm(base) if base is not None else ""
+                allocs = [s_ for s_ in walk_no_nested(fn) if isinstance(s_, ast.Assign) and norm(s_.targets[0]) == bname]
+                views = [s_ for s_ in allocs if isinstance(strip_cast(s_.value), ast.Call) and norm(strip_cast(s_.value).func) == "memoryview"]
+                if views:
+                    bname = norm(strip_cast(views[0].value).args[0])
+                    allocs = [s_ for s_ in walk_no_nested(fn) if isinstance(s_, ast.Assign) and norm(s_.targets[0]) == bname]
+                # the allocation that reaches this loop: the last one before it in the loop's own block
+                blk = next((b_ for p_ in ast.walk(fn) for b_ in (getattr(p_, "body", None), getattr(p_, "orelse", None)) if isinstance(b_, list) and any(x is w for x in b_)), [])
+                pre = [s_ for s_ in blk[: next((k_ for k_, x in enumerate(blk) if x is w), 0)] if s_ in allocs]
+                allocs = pre[-1:] if pre else allocs
+                okb = bool(allocs) and all(isinstance(strip_cast(s_.value), ast.Call) and norm(strip_cast(s_.value).func) == "bytearray" and len(strip_cast(s_.value).args) == 1 and norm(strip_cast(s_.value).args[0]) == n_param for s_ in allocs) and isinstance(tgt, ast.Subscript) and isinstance(tgt.slice, ast.Slice) and tgt.slice.lower is not None and norm(tgt.slice.lower) == cnt
+                rep.check(okb, "recv-exact", fq, enclosing(rd, (ast.stmt,)), f"recv_into must fill a slice starting at the count of a buffer allocated with exactly {n_param} bytes: anything larger lets bytes of the following PDU into this one", mod=tr, node=rd)
+                continue
+            size = rd.args[0] if rd.args else None
+            bounded, how = False, ""
+            if size is not None and norm(size) in remaining:
+                bounded, how = True, "exact remaining count"
+            elif isinstance(size, ast.Call) and dotted(size.func) == "min" and any(norm(a_) in remaining for a_ in size.args):
+                bounded, how = True, "min(.., remaining)"
+            elif isinstance(size, ast.Name):
+                var = size.id
+                cfg = CFG(fn, body=body_nodoc(fn), may_raise=lambda n: False)
+                rn = cfg.nodes_containing(rd)[0]
+
+                def transfer(n, st, var=var, remaining=remaining):
+                    if n.kind == "stmt" and isinstance(n.ast, ast.Assign) and norm(n.ast.targets[0]) == var:
+                        v = n.ast.value
+                        if norm(v) in remaining or (isinstance(v, ast.Call) and dotted(v.func) == "min" and any(norm(a_) in remaining for a_ in v.args)):
+                            return [("bounded", None)]
+                        return [("unbounded", None)]
+                    if n.kind == "test":
+                        tt = n.ast.test
+                        if isinstance(tt, ast.Compare) and len(tt.ops) == 1:
+                            l, r = norm(tt.left).strip("()"), norm(tt.comparators[0]).strip("()")
+                            if (l in remaining and r == var and isinstance(tt.ops[0], (ast.Lt, ast.LtE))) or (l == var and r in remaining and isinstance(tt.ops[0], (ast.Gt, ast.GtE))):
+                                return [(st, {"true"}), ("bounded", {"false"})]
+                            if (l in remaining and r == var and isinstance(tt.ops[0], (ast.Gt, ast.GtE))) or (l == var and r in remaining and isinstance(tt.ops[0], (ast.Lt, ast.LtE))):
+                                return [("bounded", {"true"}), (st, {"false"})]
+                    return [(st, None)]
+
+                ins, pred = typestate(cfg, "unbounded", transfer)
+                bounded = ins.get(rn.id, set()) == {"bounded"}
+                how = "if-clamp"
+                if not bounded:
+                    rep.fail("recv-exact", fq, enclosing(rd, (ast.stmt,)), f"socket.recv may be asked for more than the {n_param} - {cnt} bytes still missing: bytes of the following PDU would be swallowed into this one", mod=tr, node=rd, path=witness(cfg, pred, rn, "unbounded"))
+                    continue
+            if bounded:
+                rep.ok("recv-exact", f"{fq} :: socket.recv size at line {rd.lineno} bounded by the remaining count", how)
+            else:
+                rep.fail("recv-exact", fq, enclosing(rd, (ast.stmt,)), f"socket.recv size {norm(size) if size is not None else '?'} is not bounded by the remaining count", mod=tr, node=rd)
+    rep.floor("socket reads in recv()", n_reads, 1)
+    # what is returned is what was received
+    try:
+        rm_ = RecvModel(fn, n_param)
+        rets = rm_.run()
+    except Refused as exc:
+        rep.defer(f"{fq}: length bookkeeping not decidable ({exc})")
+        return
+    for w_, ctr_, c0_ in rm_.counter_issues:
+        rep.fail("recv-exact", fq, w_, f"the loop is steered by `{ctr_}`, which is {'not a function of the bytes received' if c0_ is None else c0_.show() + ' when T bytes were received'}: it must count exactly the bytes the socket delivered, otherwise the loop stops before (or runs past) the {n_param} bytes asked for", mod=tr, node=w_)
+    rep.need(bool(rets), f"{fq}: no return found")
+    seen = set()
+    for node, L, tot in rets:
+        key = (node.lineno, None if L is None else L.show(), tot.show())
+        if key in seen:
+            continue
+        seen.add(key)
+        if L is None:
+            rep.defer(f"{fq}: length of `{norm(node)}` not determined")
+            continue
+        rep.check(L == tot, "recv-exact", fq, f"{norm(node)} (line {node.lineno}): len = {L.show()}, received = {tot.show()}", f"recv() returns a buffer of length {L.show()} when {tot.show()} bytes were received (T = bytes received so far, n = bytes asked for): the caller tells a complete PDU from a connection that closed part-way by that length - a buffer padded to n passes for a complete PDU and is decoded", mod=tr, node=node)
